@@ -1,6 +1,6 @@
 """C03 - units mirror pages / slides / sheets / chapters / messages.
 
-Space I (bounded-exhaustive, no sampling). Five parts:
+Space I (bounded-exhaustive, no sampling). Six parts:
 
 (vec)   unit-kind vectors: every vector of length 1..N (quick N=3, thorough N=4; mbox also length 0) over the unit kinds the
         format's reference writer can express - text, empty, whitespace-only, image-only, table-only (plus "titled" = title +
@@ -21,9 +21,26 @@ Space I (bounded-exhaustive, no sampling). Five parts:
         (thorough: 2..3) over the sheet alphabet cell_sheet_alphabet(value set) = {one token, empty sheet, a lone falsy value,
         a text row followed by a falsy row, a text column followed by a falsy column, truthy next to falsy, a text row followed
         by an all-falsy row}. Writer options: xls additionally with RK-encoded integers when the sheet holds an integer.
+(open)  units that END INSIDE AN OPEN CONSTRUCT, followed / preceded by ordinary units: EPUB books whose chapters are taken from
+        the ordinary kinds OPEN_REGULAR = {text, tbl} (thorough: + empty) and the 19 open kinds OPEN_KINDS - a content document
+        that stops inside, or never closes, a paragraph, list item, div, pre, table cell, table row, table, nested table,
+        object, script, style, textarea, comment, CDATA section, processing instruction, start tag, character reference or
+        title ("-omit": end tags left out, document otherwise complete; "-trunc": the document is cut there). quick: every
+        vector of length 2 and every vector [a, b, ordinary] of length 3 with at least one open kind; thorough: every vector of
+        length 2..3 with at least one open kind; each in the XHTML spelling (.xhtml, application/xhtml+xml) and the HTML
+        spelling (.html, text/html, <!DOCTYPE html>) of all content documents (OPEN_OPTS). What is demanded: the ORDINARY
+        chapters keep every clause (count, number, order, cover, join) whatever stands next to them - a unit is a function of
+        its own chapter; the text of an open chapter ("soft" tokens, class S) is not demanded (the statement does not say how
+        tag soup is read) but must not be returned twice or in the unit of another chapter (cover:dup / cover:mixed).
 (fix)   every file under /repo/sharepoint2text/tests/resources through read_file: numbering / uniqueness / join only.
 
-A case is plain JSON: {"kinds": [...], "opts": {...}} | {"sheets": [grid, ...], "opts": {...}} (grid = rows of "C" | ADM typed
+Accessor options (all parts, join clause): when get_full_text() and iterate_units() of a content class share boolean keyword
+options (found by inspect.signature, at most MAX_ACCESSOR_OPTIONS; today: PptxContent.include_image_captions), the join
+equation is asked of ONE content object for every assignment of the options, forwards and then backwards, and for the plain
+call last (option_walk). The pptx vectors therefore also run with the writer option {"alt": True} (pictures carry alt text, so
+that the option changes the text).
+
+A case is plain JSON: {"kinds": [...], "opts": {...}} (open kinds are spelled "o:<construct>-omit|trunc") | {"sheets": [grid, ...], "opts": {...}} (grid = rows of "C" | ADM typed
 cell such as ["i", 0]) | {"pre": 0|1, "secs": [[level, body], ...]} | {"file": name}.
 All tokens are allocated from Tokens(seed) in source order, so the case alone determines the document.
 
@@ -48,11 +65,14 @@ Oracle clauses (each demands only what the statement says; the part after the co
           every heading text is found in the text or heading path of at least one unit and only in units of its own
           section or of sections nested below it
   join    pdf, pptx, odp, xlsx, ods, epub, html, mhtml, plain, e-mail, odg, odf: get_full_text() equals
-          "\\n".join(unit texts).strip()
+          "\\n".join(unit texts).strip() - also when asked again after calls with accessor options
+  join:options  get_full_text(**options) equals the trimmed newline-join of the texts of iterate_units(**options), for every
+          assignment of the shared boolean accessor options, on one content object (see "Accessor options")
   raises  the extractor raised on a valid generated document (no units at all)
 """
 from __future__ import annotations
 
+import inspect
 import io
 import itertools
 import json
@@ -84,7 +104,7 @@ VEC_KINDS = {
 }
 VEC_OPTS = {
     "pdf": [{}, {"empty_page": "emptystream"}],
-    "pptx": [{}, {"slide_part_numbers": "reversed"}, {"slide_part_numbers": "gapped"}],
+    "pptx": [{}, {"slide_part_numbers": "reversed"}, {"slide_part_numbers": "gapped"}, {"alt": True}],   # alt: pictures carry alt text
     "odp": [{}, {"class_style_names": True}],
     "odg": [{}, {"custom_shape": True}],
     "ppt": [{}, {"layout": "lo"}, {"p_mode": "textbox"}, {"p_mode": "slwt_other"}],
@@ -208,6 +228,53 @@ def cells_cases(fmt, tier):
                 yield from emit([[list(row) for row in g] for g in vec])
 
 
+# (open) part: EPUB chapters whose content document ENDS INSIDE AN OPEN CONSTRUCT. name -> (markup after <body> (or, for
+# "head:", after <head>), is the rest of the document (closing tags of body / html) still written?). {0} {1} {2} are fresh
+# tokens of class S ("soft": text of a tag-soup chapter - where it must be returned is not judged, only that it stays out of
+# the units of the OTHER chapters). "-omit": end tags left out the way the HTML syntax allows or tolerates, document complete;
+# "-trunc": the document stops right there (a truncated download / a chapter cut in the middle).
+OPEN_KINDS = {
+    "o:p-omit": ("<p>{0}<p>{1}", True),
+    "o:li-omit": ("<ul><li>{0}<li>{1}</ul>", True),
+    "o:div-omit": ("<div><p>{0}</p><div>{1}", True),
+    "o:pre-omit": ("<p>{0}</p><pre>{1}", True),
+    "o:cell-omit": ("<p>{0}</p><table><tr><td>{1}<td>{2}</table>", True),
+    "o:row-omit": ("<table><tr><td>{0}</td><td>{1}</td><tr><td>{2}</td></table>", True),
+    "o:table-omit": ("<p>{0}</p><table><tr><td>{1}</td></tr>", True),
+    "o:object-omit": ("<p>{0}</p><object data=\"x.bin\"><p>{1}</p>", True),
+    "o:cell-trunc": ("<p>{0}</p><table><tr><td>{1}</td><td>{2}", False),
+    "o:nested-trunc": ("<table><tr><td>{0}<table><tr><td>{1}", False),
+    "o:script-trunc": ("<p>{0}</p><script>var a = \"{1}\";", False),
+    "o:style-trunc": ("<p>{0}</p><style>p:before {{ content: \"{1}\" }}", False),
+    "o:textarea-trunc": ("<p>{0}</p><textarea>{1}", False),
+    "o:comment-trunc": ("<p>{0}</p><!-- {1}", False),
+    "o:cdata-trunc": ("<p>{0}</p><![CDATA[ {1}", False),
+    "o:pi-trunc": ("<p>{0}</p><?x {1}", False),
+    "o:tag-trunc": ("<p>{0}</p><p class=\"{1}", False),
+    "o:entity-trunc": ("<p>{0}</p><p>{1} &am", False),
+    "o:title-trunc": ("head:<title>{0}", False),
+}
+OPEN_REGULAR = ["text", "tbl"]
+OPEN_OPTS = [{}, {"ctype": "html"}]
+for _i, _k in enumerate(OPEN_KINDS):
+    KIND_RANK[_k] = 10 + _i
+
+
+def open_cases(tier):
+    """quick: every vector of length 2 over OPEN_KINDS + OPEN_REGULAR and every vector [a, b, regular] of length 3, each with at
+    least one open kind; thorough: every vector of length 2..3 with at least one open kind (+ "empty" among the regular kinds)."""
+    reg = OPEN_REGULAR if tier == "quick" else OPEN_REGULAR + ["empty"]
+    alpha = reg + list(OPEN_KINDS)
+    for n in (2, 3):
+        for vec in itertools.product(alpha, repeat=n):
+            if not any(k in OPEN_KINDS for k in vec):
+                continue
+            if tier == "quick" and n == 3 and vec[-1] in OPEN_KINDS:
+                continue
+            for o in OPEN_OPTS:
+                yield {"kinds": list(vec), "opts": dict(o)}
+
+
 def fixture_files():
     out = []
     for root, _, files in os.walk(RES_DIR):
@@ -292,13 +359,39 @@ def xhtml_body(kind, tk, body, ident, img_src="k.jpg"):
     raise ValueError(kind)
 
 
-def build_epub(kinds, tk, truth):
+def open_document(kind, tk, soft, ctype):
+    """Content document of an open kind (see OPEN_KINDS), in the XHTML or the HTML spelling of the document frame."""
+    markup, complete = OPEN_KINDS[kind]
+    in_head = markup.startswith("head:")
+    markup = markup[5:] if in_head else markup
+    toks = [tk.new("S") for _ in range(3 if "{2}" in markup else 2 if "{1}" in markup else 1)]
+    soft += toks
+    frame = "<!DOCTYPE html><html><head>" if ctype == "html" else '<?xml version="1.0" encoding="utf-8"?><html xmlns="http://www.w3.org/1999/xhtml"><head>'
+    doc = frame + (markup.format(*toks) if in_head else "<title></title></head><body>" + markup.format(*toks))
+    return doc + ("</body></html>" if complete else "")
+
+
+def build_epub(kinds, tk, truth, opts=None):
     """EPUB 3 package written from the specification: one spine item per kind (XHTML content documents; "svg" = an SVG
-    content document, which EPUB 3 allows in the spine and the library documents as not being a chapter)."""
+    content document, which EPUB 3 allows in the spine and the library documents as not being a chapter). opts["ctype"] = "html":
+    every content document is an .html item of media type text/html in the HTML spelling (EPUB 2 out-of-spec, but a spelling
+    the library accepts as a chapter); open kinds: see OPEN_KINDS."""
     from verif.gen import htmlfam
     items, spine, files = [], [], {}
+    ctype = (opts or {}).get("ctype", "xhtml")
+    ext, mt = ("html", "text/html") if ctype == "html" else ("xhtml", "application/xhtml+xml")
     for i, k in enumerate(kinds, 1):
         body, ident = [], []
+        if k in OPEN_KINDS or ctype == "html":
+            soft = []
+            if k in OPEN_KINDS:
+                files[f"OEBPS/ch{i}.{ext}"] = open_document(k, tk, soft, ctype)
+            else:
+                files[f"OEBPS/ch{i}.{ext}"] = htmlfam.html_page(xhtml_body(k, tk, body, ident), "")
+            items.append(f'<item id="it{i}" href="ch{i}.{ext}" media-type="{mt}"/>')
+            spine.append(f'<itemref idref="it{i}"/>')
+            truth.append({"body": body, "ident": ident, "soft": soft, "kind": k})
+            continue
         if k == "svg":
             z = tk.new("Z")
             files[f"OEBPS/v{i}.svg"] = f'<svg xmlns="http://www.w3.org/2000/svg" viewBox="0 0 10 10"><text x="1" y="5">{z}</text></svg>'
@@ -348,7 +441,7 @@ def render_vec(fmt, case, seed):
     kinds, opts = case["kinds"], dict(case.get("opts") or {})
     truth = []
     if fmt == "epub":
-        return build_epub(kinds, tk, truth), truth
+        return build_epub(kinds, tk, truth, opts), truth
     if fmt in ("mbox", "eml"):
         from verif.gen import mail
         specs = []
@@ -400,6 +493,8 @@ def render_vec(fmt, case, seed):
         return pdfw.pdf(doc, images, opts), truth
     if fmt == "pptx":
         from verif.gen import ooxml
+        if opts.get("alt"):
+            opts["alt"] = {"k": "alt " + tk.new("Z")}
         return ooxml.pptx(doc, images, opts), truth
     if fmt in ("odp", "odg", "odf"):
         from verif.gen import odf
@@ -502,8 +597,41 @@ def _strs(x, out):
             _strs(y, out)
 
 
+_OPT_NAMES: dict = {}
+MAX_ACCESSOR_OPTIONS = 3
+
+
+def accessor_options(r):
+    """Names of the boolean keyword options that get_full_text() and iterate_units() of this content class share."""
+    cls = type(r)
+    if cls not in _OPT_NAMES:
+        try:
+            a = inspect.signature(cls.get_full_text).parameters
+            b = inspect.signature(cls.iterate_units).parameters
+            names = [n for n, p_ in a.items() if n != "self" and isinstance(p_.default, bool) and n in b and isinstance(b[n].default, bool)]
+        except (TypeError, ValueError):
+            names = []
+        _OPT_NAMES[cls] = names[:MAX_ACCESSOR_OPTIONS]
+    return _OPT_NAMES[cls]
+
+
+def option_walk(r):
+    """The join equation under the accessor options, asked of ONE content object (so that an answer kept from an earlier call
+    shows): every assignment of the shared boolean options, forwards and then backwards, and the plain call last.
+    -> [(options, get_full_text(**options), [unit texts of iterate_units(**options)])]; empty for classes without options."""
+    names = accessor_options(r)
+    if not names:
+        return []
+    assigns = [dict(zip(names, v)) for v in itertools.product([False, True], repeat=len(names))]
+    out = []
+    for o in assigns + assigns[::-1] + [{}]:
+        full = r.get_full_text(**o)
+        out.append((o, full, [u.get_text() for u in r.iterate_units(**o)]))
+    return out
+
+
 def observe(results):
-    """-> list (per result) of {"cls", "full", "units": [{"num", "text", "toks": set, "path": set}]}"""
+    """-> list (per result) of {"cls", "full", "units": [{"num", "text", "toks": set, "path": set}], "walk": option_walk}"""
     obs = []
     for r in results:
         us = []
@@ -525,7 +653,7 @@ def observe(results):
             for s in meta:
                 path.update(find_tokens(s))
             us.append({"num": getattr(md, "unit_number", None), "text": text, "toks": toks, "path": path, "cells": cells})
-        obs.append({"cls": type(r).__name__, "full": r.get_full_text(), "units": us})
+        obs.append({"cls": type(r).__name__, "full": r.get_full_text(), "units": us, "walk": option_walk(r)})
     return obs
 
 
@@ -542,6 +670,18 @@ def check_join(o, fails, where=""):
     if o["full"] != exp:
         fails.append(("join", f"{where}get_full_text() {o['full']!r} != trimmed newline-join of the unit texts {exp!r}"))
         return False
+    asked = ["get_full_text()"]
+    for opts, full, utexts in o.get("walk") or []:
+        call = "get_full_text(%s)" % ", ".join(f"{k}={v}" for k, v in opts.items())
+        asked.append(call)
+        if not isinstance(full, str) or not all(isinstance(t, str) for t in utexts):
+            fails.append(("join:options", f"{where}{call}: unit text / full text is not a str"))
+            return False
+        exp = "\n".join(utexts).strip()
+        if full != exp:
+            fails.append(("join:options" if opts else "join", f"{where}call {len(asked)} on one content object ({' ; '.join(asked)}): {call} {full!r} != trimmed newline-join "
+                                                              f"of the unit texts of iterate_units({call[14:-1]}) {exp!r}"))
+            return False
     return True
 
 
@@ -576,9 +716,12 @@ def judge_vec(fmt, kinds, truth, data, extra=None):
     fails = []
     owner = {}
     for i, t in enumerate(truth):
-        for tok in t["body"] + t["ident"]:
+        for tok in t["body"] + t["ident"] + t.get("soft", []):
             owner[tok] = i
     body_toks = [tok for t in truth for tok in t["body"]]
+    # text that must not be returned in two units or in a unit of another source unit: the body text plus the "soft" text of
+    # tag-soup units (which is not demanded, see OPEN_KINDS)
+    excl_toks = body_toks + [tok for t in truth for tok in t.get("soft", [])]
     if fmt == "mbox":
         # one result per message, each with one unit numbered 1 (README table)
         units = []
@@ -623,12 +766,12 @@ def judge_vec(fmt, kinds, truth, data, extra=None):
         if not holders:
             fails.append(("cover:lost", f"text of source unit {owner[tok] + 1} ({kinds[owner[tok]]}) is in no unit; units {[u['text'] for u in units]}"))
             break
-    for tok in body_toks:
+    for tok in excl_toks:
         holders = [k for k, u in enumerate(units) if tok in u["toks"]]
         if len(holders) > 1:
             fails.append(("cover:dup", f"text of source unit {owner[tok] + 1} is returned in {len(holders)} units (positions {[h + 1 for h in holders]})"))
             break
-    n_holders = {tok: sum(1 for u in units if tok in u["toks"]) for tok in body_toks}
+    n_holders = {tok: sum(1 for u in units if tok in u["toks"]) for tok in excl_toks}
     for k, s in enumerate(src_of):
         # text returned twice is reported as cover:dup; 'mixed' is judged on the text that has exactly one holder
         bs = sorted({owner[t] for t in units[k]["toks"] if n_holders.get(t) == 1})
@@ -964,6 +1107,8 @@ def _part_cases(part, fmt, tier):
         return cells_cases(fmt, tier)
     if part == "head":
         return head_cases(tier)
+    if part == "open":
+        return open_cases(tier)
     if part == "fix":
         return ({"file": f} for f in fixture_files())
     raise ValueError(part)
@@ -1009,6 +1154,8 @@ def run(ctx):
     for fmt in HEAD_FORMATS:
         n = 8 if ctx.quick else 48
         args += [("head", fmt, tier, k, n, ctx.seed) for k in range(n)]
+    n = 4 if ctx.quick else 16
+    args += [("open", "epub", tier, k, n, ctx.seed) for k in range(n)]
     nfix = len(fixture_files())
     args += [("fix", "fixture", tier, k, 16, ctx.seed) for k in range(16)]
     random.Random(ctx.seed).shuffle(args)
@@ -1041,17 +1188,29 @@ def run(ctx):
                    f"(cells) for {', '.join(CELL_FORMATS)}: every full rectangle of the shapes (rows, columns, max typed cells) {CELL_SHAPES[tier]} over a token "
                    f"string + each of the value sets {CELL_VALUE_SETS[tier]} (each value at most once per sheet) and every workbook of "
                    f"{' / '.join(str(x) for x in CELL_VEC_LEN[tier])} sheets over the 8-sheet alphabet of each value set (xls also with RK integers); "
+                   f"(open) epub: every chapter vector of length 2{' and [a, b, ordinary] of length 3' if ctx.quick else '..3'} over {OPEN_REGULAR + ([] if ctx.quick else ['empty'])} + the "
+                   f"{len(OPEN_KINDS)} open kinds (content document ends inside an open construct) with at least one open kind x {OPEN_OPTS}; "
+                   f"join clause asked for every assignment of the boolean accessor options shared by get_full_text / iterate_units on one object; "
                    f"all {nfix} repository fixtures (number / join clauses). distinct_nontrivial = distinct (format, #units, unit numbers, "
                    "source units per unit, failed clauses) outcomes",
            "per_part": dict(sorted(per.items())), "skipped_inexpressible": skipped, "samples": samples,
            "outcomes": dict(sorted(outcomes.items(), key=lambda kv: -kv[1])[:80]),
            "bounds": {"tier": tier, "max_units": nmax, "max_sections": nmax, "kinds": VEC_KINDS, "opts": VEC_OPTS,
+                      "open": {"formats": ["epub"], "open_kinds": list(OPEN_KINDS), "ordinary_kinds": OPEN_REGULAR + ([] if ctx.quick else ["empty"]),
+                               "lengths": [2, 3], "length_3_last_kind": "ordinary" if ctx.quick else "any", "opts": OPEN_OPTS},
+                      "accessor_options": {"max_options": MAX_ACCESSOR_OPTIONS, "walk": "all assignments forwards, backwards, plain call"},
                       "cells": {"formats": CELL_FORMATS, "value_sets": CELL_VALUE_SETS[tier], "shapes_rows_cols_maxtyped": CELL_SHAPES[tier],
                                 "workbook_lengths": list(CELL_VEC_LEN[tier]), "sheet_alphabet_of_first_value_set": cell_sheet_alphabet(CELL_VALUE_SETS[tier][0])}}}
     assumptions = [
         "mbox: one result per message, each with exactly one unit numbered 1 (README table); count / order are judged over results",
         "EPUB: an SVG (non-XHTML) spine item may or may not yield a unit and chapters may be numbered by spine position or by chapter "
         "ordinal (statement silent); invalid packages (missing items) are not generated",
+        "EPUB (open) part: a spine item of an XHTML / HTML media type is a chapter (one unit) even when its markup is tag soup or truncated; the "
+        "text of such a chapter is not demanded (the statement does not say how tag soup is read), only that it is returned in no other unit and "
+        "not twice; the well-formed chapters of the same book are judged in full. text/html content documents are outside the EPUB "
+        "specifications but accepted by the library as chapters",
+        "accessor options: 'get_full_text() equals the join of the unit texts' is read with the same options on both sides "
+        "(get_full_text(**o) vs iterate_units(**o)); only boolean keyword options that both accessors share are walked",
         "flowing formats (docx, odt): one unit for the whole document is always accepted; with several units the count may lie between the "
         "number of sections that have content and the number of sections (an empty section may or may not yield a unit)",
         "heading text may appear in the heading path of its own section's unit and of every section nested below it",
